@@ -352,7 +352,39 @@ func (g *gen) c10newlines(b *bytes.Buffer) {
 	}
 }
 
+// values around the sizes at which a decoder might switch to another way of reading (64 KiB, 1 MiB and the bufio sizes),
+// alone, behind keep-alives, inside a command array and followed by another value; some cut short or with a bad terminator
+func (g *gen) c10big() {
+	sizes := []int{4094, 4096, 4097, 8190, 8192, 65533, 65534, 65535, 65536, 65537, 65538, 70000, 131072, 262145}
+	if g.thorough() {
+		sizes = append(sizes, 1048573, 1048574, 1048575, 1048576, 1048577, 1048578, 1100000, 2097153, 4194305, 16777217, 20000000)
+	} else {
+		sizes = append(sizes, 1048574, 1048575, 1048576, 1048578, 2097153)
+	}
+	for i, n := range sizes {
+		a := 1 + 2*g.r.Intn(100)
+		hdr := fmt.Sprintf("$%d\r\n", n)
+		body := fmt.Sprintf("r%dx%d", n, a)
+		tail := "h" + hx([]byte("\r\n"))
+		next := "h" + hx([]byte(":7\r\n"))
+		bufsz := []int{0, 16, 64}[i%3]
+		seed := g.r.Int63n(1 << 31)
+		g.emit("decbig h%s+%s+%s %d %d", hx([]byte(hdr)), body, tail, seed, bufsz)
+		g.emit("decbig h%s+%s+%s+%s %d %d", hx([]byte("\n\n"+hdr)), body, tail, next, seed, bufsz)
+		g.emit("decbig h%s+%s+%s+%s %d %d", hx([]byte("*3\r\n$3\r\nset\r\n$1\r\nk\r\n"+hdr)), body, tail, next, seed, bufsz)
+		switch i % 3 {
+		case 0: // cut inside the value
+			g.emit("decbig h%s+r%dx%d %d %d", hx([]byte(hdr)), n-1-g.r.Intn(3), a, seed, bufsz)
+		case 1: // cut inside the terminator
+			g.emit("decbig h%s+%s+h0d %d %d", hx([]byte(hdr)), body, seed, bufsz)
+		case 2: // wrong terminator
+			g.emit("decbig h%s+%s+h0d0d+%s %d %d", hx([]byte(hdr)), body, next, seed, bufsz)
+		}
+	}
+}
+
 func genC10(g *gen) {
+	g.c10big()
 	// --- 0. the D13 witness and a few fixed shapes, always first
 	for _, s := range []string{"PING\r\n", "PING\r\n:1\r\n", "\n\nSET a  b \r\n\n+OK\r\n", "\r\n", "   \r\n:5\r\n", "x\n", "*1\r\n$4\r\nPING\r\n",
 		"$-1\r\n*-1\r\n$0\r\n\r\n*0\r\n", "*2\r\n\n:1\r\n\n:2\r\n", "*1\r\nPING\r\n", "*1\r\n\r\n", "$-2\r\n", "*-2\r\n", "$x\r\n", "*1x\r\n", ":\r\n", ":+\r\n", ":-\r\n",
@@ -639,6 +671,46 @@ func c10render(r redis.Resp, out *[]string) {
 	}
 }
 
+// decbig: the stream is given as pieces joined by '+': h<hex> = those bytes, r<n>x<a> = n bytes, the i-th being
+// (i*a + i/256) mod 256; values of more than 64 bytes are printed as #<len>:<fnv1a>
+func c10expand(spec string) []byte {
+	var out []byte
+	for _, p := range strings.Split(spec, "+") {
+		switch p[0] {
+		case 'h':
+			out = append(out, unhx(p[1:])...)
+		case 'r':
+			f := strings.Split(p[1:], "x")
+			n, a := atoi(f[0]), atoi(f[1])
+			for i := 0; i < n; i++ {
+				out = append(out, byte(i*a+i/256))
+			}
+		default:
+			panic("bad piece " + p)
+		}
+	}
+	return out
+}
+
+func unhx0(kind, s string) []byte {
+	if kind == "decbig" {
+		return c10expand(s)
+	}
+	return unhx(s)
+}
+
+func c10showBig(r redis.Resp) string {
+	var toks []string
+	c10render(r, &toks)
+	for i, t := range toks {
+		if (t[0] == 'B' || t[0] == 'S' || t[0] == 'E') && len(t) > 129 {
+			v := unhx(t[1:])
+			toks[i] = fmt.Sprintf("%c#%d:%016x", t[0], len(v), fnv1a(v))
+		}
+	}
+	return strings.Join(toks, ",")
+}
+
 func c10show(r redis.Resp) string {
 	var toks []string
 	c10render(r, &toks)
@@ -767,8 +839,12 @@ func runC10(f []string) string {
 			return hx(b) + " !" + c10errClass(err)
 		}
 		return hx(b) + " " + c10show(back)
-	case "dec":
-		data := unhx(f[1])
+	case "dec", "decbig":
+		data := unhx0(f[0], f[1])
+		show := c10show
+		if f[0] == "decbig" {
+			show = c10showBig
+		}
 		seed, _ := strconv.ParseInt(f[2], 10, 64)
 		fr := &c10fragReader{data: data, r: rand.New(rand.NewSource(seed))}
 		var br *bufio.Reader
@@ -788,7 +864,7 @@ func runC10(f []string) string {
 				break
 			}
 			unread := len(data) - fr.pos + br.Buffered()
-			out = append(out, fmt.Sprintf("%s@%d/%d", c10show(r), off, unread))
+			out = append(out, fmt.Sprintf("%s@%d/%d", show(r), off, unread))
 			count++
 		}
 		// the error class, from a second decoder over the same bytes (MustDecodeOpt hides the error)
